@@ -43,14 +43,14 @@ def main():
         os.makedirs(os.path.join(WT, "tests"), exist_ok=True)
         sh("cp %s/demo.rs %s/%s" % (d, WT, locn))
         feat = " --features unstable" if "unstable" in meta.get("demo_cmd", "") else ""
-        cmd = "cargo test --offline --test %s%s 2>&1 | grep -E '^test result|^error' | head -3" % (name, feat)
+        cmd = "cargo test --offline --test %s%s 2>&1 | grep -a -E '^test result|^error' | head -3" % (name, feat)
         r1 = sh(cmd)
         out["demo_clean"] = r1.stdout.strip()
         ap = sh("git apply %s/patch.diff" % d)
         out["patch_applies"] = ap.returncode == 0
         if ap.returncode != 0:
             out["apply_err"] = ap.stdout[-300:]
-        r2 = sh("cargo test --offline --lib 2>&1 | grep -E '^test result|^error' | head -3")
+        r2 = sh("cargo test --offline --lib 2>&1 | grep -a -E '^test result|^error' | head -3")
         out["lib_with_patch"] = r2.stdout.strip()
         r3 = sh(cmd)
         out["demo_with_patch"] = r3.stdout.strip()
